@@ -29,6 +29,7 @@ PADS = {
     "E0": ("exact", 0, 0, 0, 0),
     "E1010": ("exact", 1, 0, 1, 0),
     "E0101": ("exact", 0, 1, 0, 1),
+    "E2000": ("exact", 2, 0, 0, 0),   # same padded size as E1010, different output
     "A32": ("aligned", 3, 2),
     "A14": ("aligned", 1, 4),
     "Arel": ("aligned", 0, -2),       # terminal-relative: TERM[0] x (TERM[1] - 2)
@@ -268,8 +269,27 @@ def argkey(a):
         return repr(a)
 
 
+_ADDR = __import__("re").compile(r" at 0x[0-9a-fA-F]+|0x[0-9a-fA-F]{6,}")
+# locals of `_iterate` that are dead at every suspension point (overwritten before they are read again)
+_STALE_LOCALS = {"frame", "cache_entry", "frame_details", "exc"}
+_OWN_LOCALS = {"self", "renderable", "render_data", "renderable_data", "CURRENT", "cache"}
+
+
+def generic(v):
+    """Canonical text of an arbitrary value (tuples / lists / dicts structurally, everything else by its
+    repr without addresses) - used for state the harness does not know by name, e.g. a field added to a
+    cache entry, a new attribute or a new generator local."""
+    if isinstance(v, (tuple, list)):
+        return "(" + ",".join(generic(x) for x in v) + ")"
+    if isinstance(v, dict):
+        return "{" + ",".join(f"{k}:{generic(x)}" for k, x in sorted(v.items(), key=lambda kv: str(kv[0]))) + "}"
+    return _ADDR.sub("", repr(v))
+
+
 def impl_canon(im):
-    """Everything the future behaviour of the iterator depends on (see c08.py for the argument)."""
+    """Everything the future behaviour of the iterator depends on (see c08.py for the argument): every
+    instance attribute, every live local of the suspended generator (by name-independent, generic capture, so
+    state added by a changed implementation is seen too), the whole cache, the render data fields."""
     it, r = im.it, im.r
     base = (r.tell(), r.stream_pos, it.loop)
     if it._closed:
@@ -278,16 +298,12 @@ def impl_canon(im):
     if fr is None:                               # generator finished but the iterator was not closed
         return ("dead",) + base
     loc = fr.f_locals
-    d = it._renderable_data
-    cache = loc["cache"]
-    csig = None
-    if cache is not None:
-        csig = tuple(None if e[0] is None else
-                     ((e[0][0], durkey(e[0][1]), tuple(e[0][2]), e[0][3]), tuple(e[1]), durkey(e[2]), argkey(e[3]))
-                     for e in cache)
-    return ("open", base, d.frame_offset, d.seek_whence.name, tuple(d.size), durkey(d.duration), d.iteration,
-            loc["loop"], loc.get("frame_no"), fr.f_lineno, argkey(it._render_args), repr(it._padding),
-            tuple(it._padded_size), bool(it._cached), it._loops, it._render_data.finalized, csig)
+    cache = loc.get("cache")
+    csig = None if cache is None else tuple(generic(e) for e in cache)
+    locs = tuple(sorted((k, generic(v)) for k, v in loc.items() if k not in _STALE_LOCALS and k not in _OWN_LOCALS))
+    attrs = tuple(sorted((k, generic(v)) for k, v in it.__dict__.items() if k not in ("_iterator", "_renderable")))
+    return ("open", base, fr.f_lineno, locs, attrs, generic(it._renderable_data.as_dict()),
+            it._render_data.finalized, csig)
 
 
 # ------------------------------------------------------------------------------ alphabets
@@ -300,17 +316,18 @@ PROFILES = {
     # durations (0 is invalid), paddings, render args ('bad' is incompatible), render sizes
     "full": dict(durs=[1, 7, "DYN", 0], pads=["E0", "E1010", "A32", "Arel"], args=["t1", "t2", "bad"],
                  sizes=[(1, 1), (2, 1)]),
-    "wide": dict(durs=[1, 7, "DYN", 0, -3], pads=["E0", "E1010", "E0101", "A32", "A14", "Arel", "Arel2"],
+    "wide": dict(durs=[1, 7, "DYN", 0, -3], pads=["E0", "E1010", "E2000", "E0101", "A32", "A14", "Arel", "Arel2"],
                  args=["t1", "t2", "base", "bad"], sizes=[(1, 1), (2, 1), (1, 3)]),
-    "small": dict(durs=[7, "DYN", 0], pads=["E1010", "Arel"], args=["t1", "bad"], sizes=[(1, 1)]),
+    "small": dict(durs=[7, "DYN", 0], pads=["E1010", "E2000", "Arel"], args=["t1", "bad"], sizes=[(1, 1)]),
     "tiny": dict(durs=[7, 0], pads=["E1010", "Arel"], args=["t1", "bad"], sizes=[(1, 1)]),
     "dur": dict(durs=[1, 7, "DYN", 0], pads=["E0", "Arel"], args=["bad"], sizes=[]),
     "args": dict(durs=[0], pads=["E0", "E1010"], args=["t1", "t2", "base", "bad"], sizes=[]),
     "size": dict(durs=[0], pads=["E1010", "A32"], args=["bad"], sizes=[(1, 1), (2, 1), (2, 2)]),
     # every cached profile offers at least two paddings that differ from each other (a padded frame stored in
     # the cache only shows after the padding changed to another one that pads)
-    "one": dict(durs=[0], pads=["E0", "E1010", "A32"], args=["t1", "bad"], sizes=[]),
-    "pad": dict(durs=[0], pads=["E0", "E1010", "A32", "Arel", "Arel2"], args=["bad"], sizes=[(1, 1)]),
+    # ... and two that pad to the SAME size with different output (a memo keyed by the padded size)
+    "one": dict(durs=[0], pads=["E0", "E1010", "E2000", "A32"], args=["t1", "bad"], sizes=[]),
+    "pad": dict(durs=[0], pads=["E0", "E1010", "E2000", "A32", "Arel", "Arel2"], args=["bad"], sizes=[(1, 1)]),
 }
 
 
